@@ -1,6 +1,7 @@
 package json
 
 import (
+	"sync/atomic"
 	"context"
 	"fmt"
 	"math"
@@ -345,11 +346,34 @@ func VerifC24JSONPair() {
 // ---------- file level: the REAL Creator and the REAL DatasourceExecuting.Run (line reader
 // goroutine, global parser worker pool, reorder queue), file piped on stdin ----------
 
-type verifSink struct{ rows [][]octosql.Value }
+type verifSink struct {
+	rows  [][]octosql.Value
+	count int64 // atomic mirror of len(rows) (read by the native late-EOF feeder)
+}
 
 func (s *verifSink) produce(ctx execution.ProduceContext, rec execution.Record) error {
 	s.rows = append(s.rows, append([]octosql.Value(nil), rec.Values...))
+	atomic.AddInt64(&s.count, 1)
 	return nil
+}
+
+// verifLineCount: number of non-empty lines in content (what a JSON-lines reader delivers).
+func verifLineCount(content string) int64 {
+	n, cur := int64(0), 0
+	for i := 0; i < len(content); i++ {
+		if content[i] == '\n' {
+			if cur > 0 {
+				n++
+			}
+			cur = 0
+		} else {
+			cur++
+		}
+	}
+	if cur > 0 {
+		n++
+	}
+	return n
 }
 
 func verifMeta(ctx execution.ProduceContext, msg execution.MetadataMessage) error { return nil }
@@ -373,7 +397,11 @@ func verifCtx() context.Context {
 // verifRunJSON: schema inference over content, then execution over the same content.
 func verifRunJSON(content string, tail bool) (physical.Schema, [][]octosql.Value, error, error) {
 	files.VerifResetStdin()
-	zzverif.SetStdin([]byte(content))
+	sink := &verifSink{}
+	// natively the end of input is held back until every row has been produced: the schedule in
+	// which Run sees "reader done" last (the engine explores all select orders by itself)
+	want := verifLineCount(content)
+	zzverif.SetStdinLateEOF([]byte(content), func() bool { return atomic.LoadInt64(&sink.count) >= want })
 	ctx := verifCtx()
 	opts := map[string]string{}
 	if tail {
@@ -385,7 +413,6 @@ func verifRunJSON(content string, tail bool) (physical.Schema, [][]octosql.Value
 	}
 	node, err := im.Materialize(ctx, physical.Environment{}, schema, nil)
 	zzverif.Assert(err == nil, "materialize-ok")
-	sink := &verifSink{}
 	runErr := node.Run(execution.ExecutionContext{Context: ctx}, sink.produce, verifMeta)
 	return schema, sink.rows, nil, runErr
 }
